@@ -214,8 +214,8 @@ def witness_cases():
 def build_cases(ctx):
     quick = ctx.tier == "quick"
     cases = witness_cases()
-    cases += gen_structured(ctx, 110 if quick else 2200)
-    cases += gen_faces(ctx, 40 if quick else 700)
+    cases += gen_structured(ctx, 110 if quick else 1300)
+    cases += gen_faces(ctx, 40 if quick else 450)
     return cases
 
 
@@ -269,9 +269,7 @@ def evaluate(ctx, out, cases, sel, dist, prop=PROP):
             viols = []          # empty map: refused by design
         out.near_tie_skipped += skipped
         tied = lane != "exact" and ans.get("selMargin") is not None and Fraction(ans["selMargin"]) < M.EPS
-        classes = {}
-        for v in viols:
-            classes.setdefault(M.classify_violation(c, ans, v), v)
+        classes = M.classify_violations(c, obs, sel, ans, viols) if viols else {}
         for cls, v in classes.items():
             site = "osyris.map"
             vcount[f"{site}|{cls}"] = vcount.get(f"{site}|{cls}", 0) + 1
@@ -312,7 +310,10 @@ def spec_fails(ctx, case, sel):
     v, _ = M.compare_spec(case, obs, impl, ans, lane)
     if ans.get("err") == "noCells" and "raised" in impl:
         return []
-    return [(x, M.classify_violation(case, ans, x)) for x in v]
+    out = []
+    for cls, x in M.classify_violations(case, obs, sel, ans, v).items():
+        out.append((x, cls))
+    return out
 
 
 def shrink(ctx, case, sel, v, cls):
@@ -361,8 +362,8 @@ def thread_lane(ctx, out, recs, dist):
     for rec in take:
         c, ans = rec["case"], rec["ans"]
         spec = ans.get("spec") or {}
-        amb = spec.get("ambig") or []
-        near = spec.get("near") or []
+        amb = ans.get("modelAmbig") or spec.get("ambig") or []
+        near = ans.get("modelNear") or spec.get("near") or []
         for t in tlist:
             for rep in range(2 if ctx.tier == "quick" else 4):
                 impl = M.run_impl(osy, c, threads=t)
@@ -386,7 +387,7 @@ def thread_lane(ctx, out, recs, dist):
                                 break
                         if bad:
                             break
-                    if not bad:
+                    if not bad and "modelAmbig" not in ans:       # (thick map without dx: the Spec samples other depths than the code)
                         v, _ = M.compare_spec(c, rec["obs"], impl, ans, rec["lane"])
                         v0 = rec.get("violations") or []
                         if len(v) > len(v0):
@@ -429,7 +430,7 @@ def model_lanes(ctx, out, recs, sel, dist):
         out.evaluations += 1
         dist["model:" + kind] = dist.get("model:" + kind, 0) + 1
         summary[kind] += 1
-        amb = any((rc["ans"].get("spec") or {}).get("ambig") or [])
+        amb = any(rc["ans"].get("modelAmbig") or (rc["ans"].get("spec") or {}).get("ambig") or [])
         if kind == "perm":
             same = a.get("binned") == rc["ans"]["binned"] and a.get("mask") == rc["ans"]["mask"]
         else:
@@ -447,7 +448,7 @@ def model_lanes(ctx, out, recs, sel, dist):
 def run(ctx):
     out = Outcome()
     src = M.detect_source()
-    sel = {"slab": src["slab"], "radial": src["radial"]}
+    sel = {k: src[k] for k in ("slab", "radial", "depth", "depth2d")}
     out.extra["extraction"] = {"map.py": src}
     out.extra["geometry_driver"] = driver_kind()
     dist = {}
@@ -479,7 +480,7 @@ def replay(ctx, path):
     if "truncated_from" in case:
         print("replay: the stored case was truncated for the evidence file; replaying the stored cells only")
     src = M.detect_source()
-    sel = {"slab": src["slab"], "radial": src["radial"]}
+    sel = {k: src[k] for k in ("slab", "radial", "depth", "depth2d")}
     osy = ctx.osyris
     obs = M.observe(osy, case)
     impl = M.run_impl(osy, case, threads=threads)
